@@ -347,6 +347,27 @@ fn execute(scn: &BScn, property: &str) -> RunOutcome {
         Err(p) => bail_panic!(p, 0, "building the app"),
     };
 
+    // An Animator as its constructors make it (`new`, `default`, `with_timeline` - whichever the
+    // configuration used): enabled unless the configuration disabled it, at position zero, in
+    // state None. (The oracle below reads `enabled` from the component, because the operator may
+    // assign it; what the constructors set is stated here.)
+    {
+        let s0 = snap(&w);
+        if s0.enabled == cfg.start_disabled || s0.pos != Duration::ZERO || s0.state != AnimationState::None {
+            out.violation = Some(viol(
+                property,
+                "freshly-built-animator",
+                0,
+                format!(
+                    "a freshly built Animator is enabled={} at {:?} in state {:?}; expected enabled={} at 0 in state None",
+                    s0.enabled, s0.pos, s0.state, !cfg.start_disabled
+                ),
+                "constructor".into(),
+            ));
+            return out;
+        }
+    }
+
     // ---- model state --------------------------------------------------------------------------
     let initial_comp = target_of(&cfg.initial);
     let mut twin: Option<Twin> = if cfg.selector && !cfg.selector_animator_prebuilt {
